@@ -243,7 +243,9 @@ impl<'i> SmlParseTlf<'i> for List<'i> {
     }
 
     fn parse_with_tlf(mut input: &'i [u8], tlf: &TypeLengthField) -> ResTy<'i, Self> {
-        let mut v = Vec::with_capacity(tlf.len as usize);
+        // `tlf.len` comes from the (untrusted) input: don't reserve more entries than the remaining
+        // input could possibly hold (every entry takes at least one byte)
+        let mut v = Vec::with_capacity((tlf.len as usize).min(input.len()));
         for _ in 0..tlf.len {
             let (new_input, x) = ListEntry::parse(input)?;
             v.push(x);
